@@ -368,15 +368,28 @@ fn run_state(layout: usize, ops: &[Op], probing_extra: bool, pairs: bool, rename
         arrivals.push((IF1, "10.0.1.9".into(), true));
         arrivals.push((IF1, "fd00:1::9".into(), false));
     }
-    let mut ask = |w: &mut World, qs: &[&Q], arr: &(u32, String, bool), port: u16, res: &mut CaseResult| {
+    let mut ask = |w: &mut World, qs: &[&Q], arr: &(u32, String, bool), port: u16, stale_known: bool, res: &mut CaseResult| {
         let mut m = query(qs.iter().map(|q| (q.name.clone(), q.qtype)).collect());
         m.id = 0x1234;
+        if stale_known {
+            // the querier lists every record it is about to get, with one second of life left: far
+            // below half of any TTL of ours, so the response must be what it is without them
+            for q in qs {
+                let (r, _, _) = expect(q, &per_if[&arr.0], &intfs, arr.0, arr.2);
+                for mut k in r {
+                    k.ttl = 1;
+                    k.flush = false;
+                    m.answers.push(k);
+                }
+            }
+            res.count("queries_with_stale_known_answers", 1);
+        }
         let src: SocketAddr = SocketAddr::new(arr.1.parse().unwrap(), port);
         let from = w.log.len();
         w.deliver(0, arr.0, &src.to_string(), build(&m));
         res.transitions += 1;
         let sent: Vec<Out> = w.log[from..].iter().filter_map(|e| match &e.kind { Kind::Out(o) => Some(o.clone()), _ => None }).collect();
-        let ctx = || format!("query {:?} from {}:{} on if {}", qs.iter().map(|q| format!("{} t{}", show_name(&q.name), q.qtype)).collect::<Vec<_>>(), arr.1, port, arr.0);
+        let ctx = || format!("query {:?}{} from {}:{} on if {}", qs.iter().map(|q| format!("{} t{}", show_name(&q.name), q.qtype)).collect::<Vec<_>>(), if stale_known { " listing the expected records as known answers with TTL 1" } else { "" }, arr.1, port, arr.0);
         // expectation
         let mut req: Vec<Record> = vec![];
         let mut allowed: Vec<Record> = vec![];
@@ -476,7 +489,10 @@ fn run_state(layout: usize, ops: &[Op], probing_extra: bool, pairs: bool, rename
     for arr in &arrivals {
         for port in [5353u16, 40000] {
             for q in &menu {
-                ask(&mut w, &[q], arr, port, &mut res);
+                ask(&mut w, &[q], arr, port, false, &mut res);
+                if arr == &arrivals[0] {
+                    ask(&mut w, &[q], arr, port, true, &mut res);
+                }
             }
         }
     }
@@ -484,7 +500,7 @@ fn run_state(layout: usize, ops: &[Op], probing_extra: bool, pairs: bool, rename
         let arr = arrivals[0].clone();
         for q1 in &menu {
             for q2 in &menu {
-                ask(&mut w, &[q1, q2], &arr, 5353, &mut res);
+                ask(&mut w, &[q1, q2], &arr, 5353, false, &mut res);
             }
         }
     }
@@ -524,7 +540,7 @@ pub fn check(tier: &str) -> i32 {
     let dims = [nseq, 4, 2, 4];
     let part = FnPart {
         name: "states-x-queries".into(),
-        rule: format!("every register / re-register / unregister sequence of depth <= {depth} over two services x 4 interface layouts (the fourth: dual-stack with the daemon hearing its own multicasts, as with the crate's default IP_MULTICAST_LOOP) x (all announced | a third service still probing) x (no conflict | the first registration's instance name, host name or both claimed by a scripted peer during probing, so the service is renamed); in each state every single question (16 names x 7 types) from port 5353 and 40000 on every interface and IP family, and every ordered pair of questions (quick tier: pairs in the states without a rename only); after a rename both the old and the new names are asked; non-trivial = at least one service registered"),
+        rule: format!("every register / re-register / unregister sequence of depth <= {depth} over two services x 4 interface layouts (the fourth: dual-stack with the daemon hearing its own multicasts, as with the crate's default IP_MULTICAST_LOOP) x (all announced | a third service still probing) x (no conflict | the first registration's instance name, host name or both claimed by a scripted peer during probing, so the service is renamed); in each state every single question (16 names x 7 types) from port 5353 and 40000 on every interface and IP family (on the first arrival point also with the expected records listed as known answers with TTL 1, which must change nothing), and every ordered pair of questions (quick tier: pairs in the states without a rename only); after a rename both the old and the new names are asked; non-trivial = at least one service registered"),
         n: product(&dims),
         describe: Box::new(move |i| { let x = unrank(i, &dims); format!("layout {} ops {:?} probing_extra {} rename {}", layouts()[x[1] as usize].0, seq_of(x[0], depth), x[2] == 1, x[3]) }),
         run: Box::new(move |i, tr| { let x = unrank(i, &dims); run_state(x[1] as usize, &seq_of(x[0], depth), x[2] == 1, thorough || x[3] == 0, x[3], tr) }),
